@@ -425,7 +425,7 @@ def displacement(E, L):
     for ref, want in (('final', s1), ('initial', s0)):
         del _rec_dvect.calls[:]
         r = disp(s0, s1, box_reference=ref)
-        E.prove('displacement[%s].one_dvect_call' % ref, len(_rec_dvect.calls) == 1)
+        E.shape('displacement[%s].one_dvect_call' % ref, len(_rec_dvect.calls) == 1)
         p0, p1, box, pbc, res = _rec_dvect.calls[0]
         E.prove('displacement[%s].from_system0_to_system1' % ref, p0 is s0.atoms.pos and p1 is s1.atoms.pos)
         E.prove('displacement[%s].reference_box' % ref, box is want.box)
